@@ -34,6 +34,7 @@ ASSUMPTIONS = [
 BASE = """role r
   :ok true
   :bad false
+  :crash kill -KILL $$
   cleanup %(cleanup)s
   spotlight %(spot)s
   signal s scalar at (?P<ts_now>)s=(?P<scalar>\\d+)
@@ -75,6 +76,15 @@ E2E = {
     "expression-error-in-expects": (dict(aud="  al expects always: mood > 3"), True),
     "expression-error-in-condition": (dict(aud="  al audits only while mood > 3\n  al expects always: [x s] < 50"), True),
     "signal-only-auditor-disappointed-at-end": (dict(aud="  al expects eventually: [x s] > 100"), True),
+    # commands that do not exit but are killed by a signal are failures too
+    "cleanup-killed-by-signal": (dict(cleanup="kill -KILL $$"), True),
+    "second-cleanup-killed-by-signal": (dict(cleanup="test ! -e ../cleaned; rc=$?; touch ../cleaned; test $rc = 0 || kill -TERM $$"), True),
+    "action-killed-by-signal": (dict(b="crash"), True),
+    "tolerated-action-killed-by-signal": (dict(b="crash?"), False),
+    # an auditor that never audits (its mood never occurs) is not judged, whatever it watches or requires
+    "never-auditing-member-with-require-and-watches": (dict(
+        aud="  al audits only while mood == 'green'\n  al expects always: [x s] < 50\n  al watches x s",
+        interp="interpretation\n  require al satisfaction\n  require al disappointment\nend\n"), False),
 }
 
 
